@@ -616,17 +616,28 @@ func c03Header(c *Ctx, w *prove.World) {
 		if sp.kind == "nested" {
 			// read through the interface: the window handed to SecurityFeatures.Unmarshal
 			okN, seen, unread := false, false, ""
+			okBlocks := map[*ssa.BasicBlock]bool{}
 			for _, b := range u.Blocks {
 				for _, in := range b.Instrs {
 					call, isC := in.(*ssa.Call)
-					if !isC || !call.Common().IsInvoke() || call.Common().Method.Name() != "Unmarshal" {
+					if !isC {
+						continue
+					}
+					// through the interface, or on a concrete security-features value
+					argIdx := -1
+					if call.Common().IsInvoke() && call.Common().Method.Name() == "Unmarshal" {
+						argIdx = 0
+					} else if g := call.Common().StaticCallee(); g != nil && g.Name() == "Unmarshal" && g.Pkg != nil && strings.HasSuffix(g.Pkg.Pkg.Path(), "/securityfeatures") && len(call.Common().Args) == 2 {
+						argIdx = 1
+					}
+					if argIdx < 0 {
 						continue
 					}
 					seen = true
 					cx := fi.CtxBefore(call)
 					// absolute window of the argument: follow the re-slice chain down to the input parameter
 					lo, hi, haveHi := lin.K(0), lin.K(0), false
-					v := call.Common().Args[0]
+					v := call.Common().Args[argIdx]
 					for d := 0; d < 6; d++ {
 						sl, isS := v.(*ssa.Slice)
 						if !isS {
@@ -656,7 +667,34 @@ func c03Header(c *Ctx, w *prove.World) {
 					if cx.Prove(lin.GE(lo, lin.K(int64(sp.off)))) && cx.Prove(lin.LE(lo, lin.K(int64(sp.off)))) &&
 						cx.Prove(lin.GE(hi, lin.K(int64(sp.off+sp.width)))) && cx.Prove(lin.LE(hi, lin.K(int64(sp.off+sp.width)))) {
 						okN = true
+						okBlocks[b] = true
 					}
+				}
+			}
+			if okN {
+				// … and on EVERY path to a success return (a decode made only under a flag
+				// leaves the eight bytes unread for the other messages)
+				skipped := ""
+				seenB := map[*ssa.BasicBlock]bool{}
+				work := []*ssa.BasicBlock{u.Blocks[0]}
+				for len(work) > 0 && skipped == "" {
+					x := work[len(work)-1]
+					work = work[:len(work)-1]
+					if seenB[x] || okBlocks[x] {
+						continue
+					}
+					seenB[x] = true
+					if ret, isRet := x.Instrs[len(x.Instrs)-1].(*ssa.Return); isRet && len(ret.Results) == 2 {
+						if k, isK := ret.Results[1].(*ssa.Const); isK && k.Value == nil {
+							skipped = p.Rel(ret.Pos())
+						}
+					}
+					work = append(work, x.Succs...)
+				}
+				if skipped != "" {
+					okN = false
+					r.Fail("header", key, p.Rel(u.Pos()), fmt.Sprintf("bytes %d..%d are handed to SecurityFeatures.Unmarshal only on some paths: the success return at %s is reached without decoding them", sp.off, sp.off+sp.width, skipped))
+					continue
 				}
 			}
 			if okN {
